@@ -135,12 +135,15 @@ def f1_v1_faces_and_corners(ctx):
     ctx.check(okd, "C16-V1", site, "the duplicate table does not record copy k+j under the original vertex F[j]",
               "the map from cut vertices to original vertices must be consistent face by face", note="duplicates[v] gets k+j")
     # offset discipline
-    incs = [s for s in lp.body if isinstance(s, ast.AugAssign) and isinstance(s.target, ast.Name) and s.target.id == kname]
-    init = [s for s in fn.body if isinstance(s, ast.Assign) and isinstance(s.targets[0], ast.Name) and s.targets[0].id == kname]
-    oko = len(incs) == 1 and isinstance(incs[0].op, ast.Add) and au.src(incs[0].value) == nname \
+    def _inc(s):
+        i = au.increment(s)
+        return i if i is not None and i[0] == kname else None
+    incs = [s for s in lp.body if _inc(s)]
+    init = [s for s in fn.body if isinstance(s, ast.Assign) and isinstance(s.targets[0], ast.Name) and s.targets[0].id == kname and not _inc(s)]
+    oko = len(incs) == 1 and _inc(incs[0])[1] == 1 and au.src(b.resolve(_inc(incs[0])[2], at=incs[0], keep=(F,))) == f"len({F})" \
         and incs[0].lineno > apps[0].lineno and (not inner or incs[0].lineno > inner[0].lineno) \
         and len(init) == 1 and au.const(init[0].value) == 0 and init[0].lineno < lp.lineno \
-        and len([s for s in au.stmts(fn.body) if isinstance(s, ast.AugAssign) and au.src(s.target) == kname]) == 1
+        and len([s for s in au.stmts(fn.body) if _inc(s)]) == 1
     ctx.check(oko, "C16-V1", site, f"running offset `{kname}` does not start at 0 and advance by the face size after the face's copies were made",
               "copies of different faces must not overlap", note="offset advanced by len(F) after its uses")
 
@@ -230,11 +233,11 @@ def m1_maps(ctx):
                     and au.src(st.targets[0].slice) == loops[0].target.id and au.src(loops[0].iter) == au.src(loops[1].target):
                 d, cnt, v = st.targets[0].value.id, st.value.id, loops[0].target.id
                 blk, _ = au.enclosing_block(st)
-                inc = [s for s in blk if isinstance(s, ast.AugAssign) and au.src(s.target) == cnt and au.const(s.value) == 1 and isinstance(s.op, ast.Add)]
-                skip = [s for s in blk if isinstance(s, ast.If) and au.src(s.test) == f"{v} in {d}" and isinstance(s.body[0], ast.Continue)
-                        and s.lineno < st.lineno]
+                inc = [s for s in blk if au.increment(s) is not None and au.increment(s)[0] == cnt and au.increment(s)[1] == 1
+                       and au.const(au.increment(s)[2]) == 1]
                 init = [s for s in fn.body if isinstance(s, ast.Assign) and au.src(s.targets[0]) == cnt and au.const(s.value) == 0]
-                guarded = skip or any(au.src(t) == f"{v} not in {d}" and pol for t, pol in au.guards(st, stop=loops[0]))
+                conds = au.canon_conditions(st, stop=loops[0])
+                guarded = conds == [f"{v} not in {d}"]
                 if len(inc) == 1 and guarded and init and inc[0].lineno > st.lineno:
                     ok, imap = True, d
     ctx.check(ok, "C16-M1", site, "merged copies are not renumbered 0,1,2,.. in order of first appearance (once each)",
@@ -257,7 +260,10 @@ def m1_maps(ctx):
             if au.src(st.targets[0].value) == au.src(g.iter.value if isinstance(g.iter, ast.Subscript) else g.iter) \
                     and isinstance(g.target, ast.Name):
                 u = g.target.id
-                okd = au.src(st.value.elt).replace(" ", "") == f"{imap}[uf.find({u})]" and au.src(g.iter.slice) == au.src(st.targets[0].slice)
+                ufn = [t.id for w in fn.body if isinstance(w, ast.Assign) and isinstance(w.value, ast.Call) and au.call_tail(w.value) == "UnionFind"
+                       for t in w.targets if isinstance(t, ast.Name)]
+                okd = len(ufn) == 1 and au.src(st.value.elt).replace(" ", "") == f"{imap}[{ufn[0]}.find({u})]" \
+                    and au.src(g.iter.slice) == au.src(st.targets[0].slice)
         if isinstance(st, ast.Assign) and isinstance(st.targets[0], ast.Subscript) and au.is_self_attr(st.targets[0].value, "ref_vertex"):
             loops = [a for a in au.ancestors(st) if isinstance(a, ast.For)]
             if len(loops) == 2 and isinstance(loops[0].target, ast.Name) and isinstance(loops[1].target, ast.Name):
@@ -290,9 +296,12 @@ def c1_cut_graph(ctx):
     okq = len(apps) >= 2
     for c in apps:
         x = au.src(c.args[0])
-        gs = [au.src(t) for t, pol in au.guards(c, stop=fn) if pol]
-        conj = " and ".join(gs)
-        okq = okq and (f"{x} not in self.singularities" in conj or f"{x} not in self.singu_set" in conj) and "== 1" in conj.replace("==1", "== 1")
+        atoms = []
+        for t, pol in au.guards(c, stop=fn):
+            parts = t.values if isinstance(t, ast.BoolOp) and isinstance(t.op, ast.And) and pol else [t]
+            atoms += [au.canon_test(q, pol) for q in parts]
+        okq = okq and (f"{x} not in self.singularities" in atoms or f"{x} not in self.singu_set" in atoms) \
+            and any(a.startswith("1 == ") or a.endswith(" == 1") for a in atoms)
     ctx.check(okq, "C16-C1", site, "a vertex is queued for pruning without the tests `cut degree == 1 and not singular`",
               "pruning must stop at singular vertices: every singularity keeps a copy on the border of the cut mesh", note="only non-singular leaves pruned")
     loops = [st for st in au.stmts(fn.body) if isinstance(st, ast.For) and isinstance(st.iter, ast.Subscript)
